@@ -123,7 +123,10 @@ PROPS['C07'] = dict(
 
 PROPS['C01'] = dict(
     engine='A', technique='symbolic-scalar execution of the real generator (T = z3 real terms, all knots symbolic) + QF_NRA obligations against the Cox-de Boor recursion at a symbolic x, exact-rational replay',
-    harnesses=[dict(name='C01_generator_fixed_knots', src='C01_generator.cpp',
+    harnesses=[dict(name='C01_generator_sparse', src='C01_generator.cpp', chunk=1,
+                    defs=dict(quick=['-DFIXED_KNOTS', '-DSPARSE', '-DSPARSE_MORE'], thorough=['-DFIXED_KNOTS', '-DSPARSE', '-DSPARSE_MORE']),
+                    functions=['generateBSplines<p> for p in {1,3} with up to 18 knots and p in {8,11,12,13} (thorough: also 2,5,9,14,15,16) on fixed knot values: simple knots, one interior double knot, clamped ends']),
+               dict(name='C01_generator_fixed_knots', src='C01_generator.cpp',
                     defs=dict(quick=['-DFIXED_KNOTS', '-DMINP=6', '-DMAXP=7', '-DEXTRA=2'], thorough=['-DFIXED_KNOTS', '-DMINP=6', '-DMAXP=10', '-DEXTRA=3']),
                     functions=['generateBSplines<p> for p = 6..10 on fixed irregular rational knot values (every multiplicity pattern), x symbolic']),
                dict(name='C01_generator', src='C01_generator.cpp', chunk=1,
@@ -244,7 +247,7 @@ PROPS['C10'] = dict(
     level_text='Bounded symbolic model checking of the invariants: starting from every valid shape with symbolic contents, each public operation (and each pair of operations) is executed on the real classes and every live object - targets, operands, moved-from objects, objects that saw a throwing call - must satisfy window validity, one coefficient array per interval and an unchanged strictly increasing grid; moved-from objects must be interval-free and are then reused.',
     level_note='Exact reals; shapes, operations and sequence length enumerated to the bound, scalars symbolic (zero included via solver forks); trusted: g++, libz3, sym.h/harness.h, invariant predicate in C10_invariants.cpp.')
 
-_ARCH = ['-DSYMT_STRICT', '-DSYMT_POISON_DEFAULT']
+_ARCH = ['-DSYMT_STRICT', '-DSYMT_POISON_DEFAULT', '-DSYMT_POISON_MOVED']
 PROPS['C19'] = dict(
     engine='A', technique='archetype instantiation: every core template and the generic interpolate are compiled and symbolically executed with a scalar type offering ONLY the documented operations (default-constructed values are arbitrary, not zero); obligations of C01-C08, C12, C15 re-proved with it',
     compile_failure_is_violation=True,
